@@ -228,7 +228,7 @@ class Reals:
 
 
 def m_pt(R, p):
-    return {"x": R(p[0]), "y": R(p[1])}
+    return {"x": R(p[0]), "y": R(p[1]), "z": R(p[2]) if len(p) > 2 else None}
 
 
 def m_shape1(R, s):
@@ -383,7 +383,7 @@ def xml_json(el):
     return [el.tag, [[k, v] for k, v in el.attrib.items()], (el.text or "").strip(), [xml_json(c) for c in el]]
 
 
-REAL_KEYS = {"x", "y", "l", "w", "o", "r", "v", "lo", "hi", "dt", "lat", "lon", "rot", "scaling"}
+REAL_KEYS = {"x", "y", "z", "l", "w", "o", "r", "v", "lo", "hi", "dt", "lat", "lon", "rot", "scaling"}
 SET_KEYS = {"types", "oneWay", "bidir", "signs", "lights", "signRefs", "lightRefs", "lanelets", "right", "straight", "left",
             "crossings", "pred", "succ"}
 
